@@ -407,3 +407,168 @@ def rule_option_siblings(ctx):
                 ctx.violated("OPTSIB", key, fb.where(), "%s applies %d tests to the object list, %s applies %d" % (a, len(ca), b, len(cb)))
     ctx.floor("OPTSIB", 2, n, "(object-list tests in the option handlers)")
     return n
+
+
+# ---------------------------------------------------------------------------------------------------------------------
+GR_COUNT_SINKS = {"array_diff": (0, 2), "dumpfull": (3, 2)}  # callee -> (buffer argument, count argument)
+
+
+def _dep_closure(f):
+    """flow-insensitive 'value depends on' relation over the local variables of f (assignments and compound assignments)"""
+    dep = {}
+    for _b, _i, _s, x in f.nodes(True):
+        if x[0] == "asg" and kind(strip(x[2])) == "var":
+            v = strip(x[2])[1]
+            dep.setdefault(v, set()).update(y[1] for y in walk(x[3], True) if y[0] == "var")
+        elif x[0] == "decl":
+            for d in x[1]:
+                if d[2] is not None:
+                    dep.setdefault(d[0], set()).update(y[1] for y in walk(d[2], True) if y[0] == "var")
+    changed = True
+    while changed:
+        changed = False
+        for v, ds in dep.items():
+            new = set(ds)
+            for d in list(ds):
+                new |= dep.get(d, set())
+            if new != ds:
+                dep[v] = new
+                changed = True
+    return dep
+
+
+def rule_gr_component_count(ctx):
+    """GRCOMP (C19, C18): an image holds xdim * ydim * ncomp values.  In every tool function that reads an image with
+    GRreadimage, the size of the buffer it reads into and every element count handed on with that buffer (array_diff, dumpfull)
+    depends on the number of components — the one GRgetiminfo returned in the same function, or the function's own ncomp
+    parameter.  A count without that factor covers only the first 1/ncomp of the values."""
+    prog = ctx.prog
+    n = 0
+    for f in prog.funcs:
+        if not any(d in f.rel for d in ("mfhdf/hrepack/", "mfhdf/hdp/", "mfhdf/hdiff/")):
+            continue
+        bufs = set()
+        ncv = set()
+        for _b, _i, _s, c in f.calls():
+            if c[1] == "GRreadimage" and len(c[3]) >= 5 and base_var(c[3][4]):
+                bufs.add(base_var(c[3][4]))
+            if c[1] == "GRgetiminfo" and len(c[3]) >= 3 and kind(strip(c[3][2])) == "addr" and base_var(c[3][2]):
+                ncv.add(base_var(c[3][2]))
+        if not bufs:
+            continue
+        if not ncv:
+            ncv = {p[0] for p in f.params if re.fullmatch(r"n_?comps?\d?", p[0])}
+        if not ncv:
+            ctx.unrecognised("GRCOMP", "GRCOMP:%s" % f.name, f.where(), "reads an image but the number of components is neither queried nor a parameter")
+            continue
+        dep = _dep_closure(f)
+        ordn = 0
+
+        def depends(e):
+            vs = {y[1] for y in walk(e, True) if y[0] == "var"}
+            allv = set(vs)
+            for v in vs:
+                allv |= dep.get(v, set())
+            return bool(allv & ncv)
+        for _b, _i, s, x in f.nodes(True):
+            sink = None
+            if x[0] == "asg" and x[1] == "=" and kind(strip(x[2])) == "var" and strip(x[2])[1] in bufs:
+                r = strip(x[3])
+                if kind(r) == "call" and r[1] in ("malloc", "calloc") and r[3]:
+                    sink = ("size of `%s`" % strip(x[2])[1], r[3][0] if r[1] == "malloc" else ["bin", "*", r[3][0], r[3][1]], x[4])
+            elif x[0] == "call" and x[1] in GR_COUNT_SINKS:
+                bi, ci = GR_COUNT_SINKS[x[1]]
+                if len(x[3]) > max(bi, ci) and base_var(x[3][bi]) in bufs:
+                    sink = ("count given to %s" % x[1], x[3][ci], x[5])
+            if sink is None:
+                continue
+            n += 1
+            ordn += 1
+            what, e, line = sink
+            key = "GRCOMP:%s:%s#%d" % (f.name, what.split()[0], ordn)
+            if depends(e):
+                ctx.holds("GRCOMP", key, f.where(line), "%s `%s` depends on %s" % (what, render(e)[:50], "/".join(sorted(ncv))), nontrivial=True)
+            else:
+                ctx.violated("GRCOMP", key, f.where(line), "the %s, `%s`, does not depend on the number of components (%s): only the first 1/ncomp of the image's values is covered" % (
+                    what, render(e)[:60], "/".join(sorted(ncv))))
+    ctx.floor("GRCOMP", 4, n, "(buffer sizes and element counts of images read by the tools)")
+    return n
+
+
+# ---------------------------------------------------------------------------------------------------------------------
+def _paired(c):
+    """does condition c compare a quantity of object 1 with the same quantity of object 2 (`x1 != x2`, strcmp(n1, n2))?"""
+    for x in walk(c, True):
+        a = b = None
+        if x[0] == "bin" and x[1] in ("!=", "=="):
+            a, b = render(strip(x[2])), render(strip(x[3]))
+        elif x[0] == "call" and x[1] in ("strcmp", "strncmp", "memcmp") and len(x[3]) >= 2:
+            a, b = render(strip(x[3][0])), render(strip(x[3][1]))
+        if a and b and a != b and re.sub(r"1", "2", a) == b:
+            return True
+    return False
+
+
+def rule_reported_difference_counted(ctx):
+    """DIFFCOUNT (C19): hdiff's exit status is 1 when the sum of the counts its comparison routines return is not zero.  In
+    every comparison routine that keeps such a count (`nfound`), a branch that is taken because a quantity of the first object
+    differs from the same quantity of the second (`x1 != x2`, or a memcmp/strcmp result) and prints a report must add to the
+    count or return a non-zero count — unless it declares the objects not comparable (`compare = 0` or leaving through the `do_nothing` label; by design not a
+    difference) or only warns.  A branch that prints 'Different ...' and leaves the count alone makes hdiff print a
+    difference and exit 0."""
+    prog = ctx.prog
+    n = 0
+    for f in prog.funcs:
+        if "mfhdf/hdiff/" not in f.rel:
+            continue
+        if not any(x[0] == "var" and x[1] == "nfound" for _b, _i, _s, x in f.nodes(True)):
+            continue
+        cmpvars = set()
+        for _b, _i, _s, x in f.nodes(True):
+            if x[0] == "asg" and x[1] == "=" and kind(strip(x[2])) == "var":
+                r = strip(x[3])
+                if kind(r) == "call" and r[1] in ("memcmp", "strcmp", "strncmp"):
+                    cmpvars.add(strip(x[2])[1])
+        found = []
+
+        def vis(nn, st):
+            if nn[0] == "if":
+                c = strip(nn[1])
+                on_cmp = kind(c) == "bin" and c[1] == "!=" and kind(strip(c[2])) == "var" and strip(c[2])[1] in cmpvars and is_int(c[3], 0)
+                if _paired(c) or on_cmp:
+                    found.append(nn)
+            return True
+        ast_walk(f.raw.get("ast"), vis)
+        ordn = 0
+        for nn in found:
+            then = nn[2]
+            msgs = [strip(x[3][0])[1] for x in ast_calls(then) if x[1] == "printf" and x[3] and kind(strip(x[3][0])) == "str"]
+            if not msgs:
+                continue
+            ordn += 1
+            n += 1
+            key = "DIFFCOUNT:%s#%d" % (f.name, ordn)
+            line = nn[4] if len(nn) > 4 else f.line
+            upd = any((x[0] == "asg" and base_var(x[2]) == "nfound") or (x[0] == "incdec" and base_var(x[3]) == "nfound") for e in ast_exprs(then) for x in walk(e, True))
+            retnz = any(x[0] == "ret" and x[1] is not None and is_int(x[1]) and int_val(x[1]) != 0 for e in ast_exprs(then) for x in walk(e, True))
+            notcmp = any(x[0] == "asg" and base_var(x[2]) == "compare" and is_int(x[3], 0) for e in ast_exprs(then) for x in walk(e, True))
+            gotos = []
+
+            def gv(g, st):
+                if g[0] == "goto":
+                    gotos.append(g[1])
+                return True
+            ast_walk(then, gv)
+            notcmp = notcmp or "do_nothing" in gotos
+            first = next((m for m in msgs if m.strip(" -\n")), msgs[0]).strip()
+            if upd or retnz:
+                ctx.holds("DIFFCOUNT", key, f.where(line), "`%s` is counted" % first[:50], nontrivial=True)
+            elif notcmp:
+                ctx.holds("DIFFCOUNT", key, f.where(line), "`%s`: objects declared not comparable" % first[:50], nontrivial=False)
+            elif first.startswith("Warning"):
+                ctx.holds("DIFFCOUNT", key, f.where(line), "`%s`: a warning, the comparison goes on" % first[:50], nontrivial=False)
+            else:
+                ctx.violated("DIFFCOUNT", key, f.where(line), "the branch taken when `%s` prints `%s` but neither adds to nfound nor returns a non-zero count: hdiff prints a difference and exits 0" % (
+                    render(strip(nn[1]))[:70], first[:50]))
+    ctx.floor("DIFFCOUNT", 4, n, "(difference-reporting branches in hdiff's comparison routines)")
+    return n
